@@ -18,7 +18,7 @@ ASSUMPTIONS = ['data excludes the acknowledgement\'s own delimiters ~ * : ^ (tha
                'multi-interchange inputs share sender/receiver (which interchange a single 997 should address is not defined by the property)',
                'AK902 is compared only when GE01 is a canonical number; itemisation is checked tree => acknowledgement, not the converse',
                'a logged ERROR record counts as "reported"']
-REQUIRED_COUNTERS = ['docs:hl-with-wrong-number-and-wrong-element', 'injected-positions-checked', 'docs:two-elements-of-one-data-element-wrong-in-one-segment', 'docs:composite-and-one-of-its-components-wrong', 'envelope-discrepancies-checked', 'reader-findings-checked', 'docs:A', 'docs:B', 'docs:with-errors', 'docs:valid', 'ak2-checked', 'ak3-checked', 'ak4-checked', 'ak9-checked', 'acks:997', 'acks:999']
+REQUIRED_COUNTERS = ['docs:hl-with-wrong-number-and-wrong-element', 'injected-positions-checked', 'docs:two-elements-of-one-data-element-wrong-in-one-segment', 'docs:composite-and-one-of-its-components-wrong', 'envelope-discrepancies-checked', 'reader-findings-checked', 'docs:A', 'docs:B', 'docs:with-errors', 'docs:valid', 'ak2-checked', 'ak3-checked', 'ak4-checked', 'ak9-checked', 'acks:997', 'acks:999', 'addressing:checked:qualifiers-differ']
 MIN_CASES = {'quick': 700, 'thorough': 20000}
 WATCHDOG_S = {'quick': 1200, 'thorough': 7200}
 
@@ -93,6 +93,7 @@ def check_ack(ctx, text, res, case, strict=True):
     if a.isa is None or a.gs is None or [g(a.isa, 5), g(a.isa, 6), g(a.isa, 7), g(a.isa, 8)] != [g(isa_in, 7), g(isa_in, 8), g(isa_in, 5), g(isa_in, 6)] \
             or [g(a.gs, 2), g(a.gs, 3)] != [g(gs_in, 3).rstrip(), g(gs_in, 2).rstrip()]:
         ctx.viol('ack:addressing', 'the acknowledgement is not addressed back to the sender', case, {'ack_isa': a.isa, 'ack_gs': a.gs, 'in_isa': isa_in, 'in_gs': gs_in})
+    ctx.count('addressing:checked' + (':qualifiers-differ' if g(isa_in, 5) != g(isa_in, 7) else ''))
     # ---- groups and sets in order
     if len(a.groups) != len(groups_in):
         ctx.viol('ack:group-count', 'number of AK1 loops differs from the number of functional groups received', case, {'ak1': [x['ak1'] for x in a.groups], 'received': [x[2]['gs'][:8] for x in groups_in]})
